@@ -195,7 +195,7 @@ def regenerate_all():
         sys.path.insert(0, tdir)
     import importlib
     res = {}
-    for name in ('gen_tables', 'gen_protos', 'gen_consts', 'gen_globals', 'gen_cpuid'):
+    for name in ('gen_tables', 'gen_protos', 'gen_consts', 'gen_rand', 'gen_globals', 'gen_cpuid'):
         if os.path.exists(os.path.join(tdir, name + '.py')):
             m = importlib.import_module(name)
             res[name] = m.main()
